@@ -15,6 +15,12 @@ RULE = ("angle triples: ALL multiples of 15 degrees (24^3), pitch = 90/270 +- {1
         "yaw-only factor behind, or a tiny (1e-12..0.06 deg) rotation that pushes it just off the pole: _to_angle of the "
         "product vs the model, and on the implementation round trip (rounding*(1+1/h) off the gimbal branch, 2h on it), "
         "Angle@Angle vs the matrix product, v @ (A @ B) vs (v @ A) @ B through Angle operands, @= forms. "
+        "histories: random sequences (4..16/30 operations) over ONE pool of nine live objects "
+        "(2 Vec, FrozenVec, 2 Angle, FrozenAngle, 2 Matrix, FrozenMatrix) of x @ y, x @= y, y.__rmatmul__(x), tuple @ y, "
+        "ang.pitch/yaw/roll = v, ang[k] = v, ang *= k, vec.x = v, mat[i,j] = v (all nine), with x.transform(): m @= y, "
+        "copy/freeze/thaw, results stored back into the pool; after EVERY step: the step's result vs the model applied to "
+        "the operands' current values, every bystander bit-identical, setter/copy results exact, and Vec/tuple/Matrix @ Angle "
+        "= ... @ Matrix.from_angle(Angle) and (v @ M) @ Angle = v @ (M @ from_angle(Angle)) through the live Angle objects. "
         "products: random pairs of rotations and "
         "vectors of magnitude 1e-3..1e6 (matMul, vecRot). dispatch: EVERY (left type, right type, form) of the 7x7x3 table "
         "{Vec,FrozenVec,tuple,Angle,FrozenAngle,Matrix,FrozenMatrix}^2 x {@, @=, direct __rmatmul__} on several value sets "
@@ -580,6 +586,269 @@ def prop_inverse_case(ctx, im, e):
     return 'ok'
 
 
+
+# ----------------------------------------------------------------------------- operation histories over live objects
+
+POOL = [VEC, VEC, FVEC, ANG, ANG, FANG, MAT, MAT, FMAT]      # classes of the pool slots (fixed for a whole history)
+ROT_SLOTS = [3, 4, 5, 6, 7, 8]
+PROBE_V = (100.0, -50.0, 25.0)
+
+
+def slots_of(tag):
+    return [i for i, k in enumerate(POOL) if k == tag]
+
+
+def gen_history(rng, n_steps):
+    """A history = initial pool + a list of operations that keep re-using the SAME objects."""
+    init = [list(rand_vec(rng)) if k <= FVEC else list(rand_angle(rng)) for k in POOL]
+    ops = []
+    for _ in range(n_steps):
+        c = rng.random()
+        if c < 0.5:
+            form = rng.choice([0, 0, 1, 1, 1, 2])
+            ops.append(['rot', form, rng.randrange(len(POOL)), rng.choice(ROT_SLOTS), rng.randrange(64) if rng.random() < 0.6 else -1])
+        elif c < 0.56:
+            ops.append(['tup', list(rand_vec(rng)), rng.choice(ROT_SLOTS), rng.randrange(64) if rng.random() < 0.5 else -1])
+        elif c < 0.64:
+            ops.append(['ang-attr', rng.choice([3, 4]), rng.choice(['pitch', 'yaw', 'roll']), rng.uniform(-400, 800)])
+        elif c < 0.69:
+            ops.append(['ang-item', rng.choice([3, 4]), rng.choice([0, 1, 2, 'pitch', 'yaw', 'rol', 'p', 'y', 'r']), rng.uniform(-400, 800)])
+        elif c < 0.73:
+            ops.append(['ang-imul', rng.choice([3, 4]), rng.choice([2, 0.5, -1, 3.25, 1])])
+        elif c < 0.78:
+            ops.append(['vec-attr', rng.choice([0, 1]), rng.choice('xyz'), rng.uniform(-1, 1) * 10 ** rng.uniform(-3, 6)])
+        elif c < 0.82:
+            ops.append(['mat-items', rng.choice([6, 7]), list(rand_angle(rng))])
+        elif c < 0.90:
+            ops.append(['transform', rng.choice([0, 1, 3, 4]), rng.choice(ROT_SLOTS)])
+        else:
+            ops.append([rng.choice(['copy', 'freeze', 'thaw']), rng.randrange(len(POOL)), rng.randrange(64)])
+    return {'init': init, 'ops': ops}
+
+
+def fresh_like(im, obj):
+    """A new object with the same class and value (built from the value only)."""
+    sm = im.sm
+    if isinstance(obj, sm.MatrixBase):
+        return type(obj)._from_raw(*mat_entries(obj))
+    if isinstance(obj, sm.AngleBase):
+        return type(obj)(obj.pitch, obj.yaw, obj.roll)
+    if isinstance(obj, sm.VecBase):
+        return type(obj)(obj.x, obj.y, obj.z)
+    return tuple(obj)
+
+
+def reference_product(im, lo, ro):
+    """'convert Angle operands with from_angle, then rotate', from the operands' current VALUES only."""
+    sm = im.sm
+    lf, rf = fresh_like(im, lo), fresh_like(im, ro)
+    R = sm.Matrix._from_raw(*mat_entries(im.as_matrix(rf)))
+    if not isinstance(lf, (sm.AngleBase, sm.MatrixBase)):
+        return 'vec', im.raw(sm.Vec(*im.raw(lf)) @ R)
+    L = sm.Matrix._from_raw(*mat_entries(im.as_matrix(lf)))
+    return ('ang' if isinstance(lf, sm.AngleBase) else 'mat'), mat_entries(L @ R)
+
+
+def place(im, pool, res, sel):
+    """Put a result object into a slot of its own class (sel < 0: discard). Returns the slot or None."""
+    if sel < 0 or res is None:
+        return None
+    cand = slots_of(im.tag_of(res))
+    if not cand:
+        return None
+    i = cand[sel % len(cand)]
+    pool[i] = res
+    return i
+
+
+def run_history(im, hist, on_step):
+    """Run the operations on ONE pool of live objects. on_step(idx, op, pool, before, rec) after every operation;
+    before = [(id, bits)] of every slot before the step; rec describes what the step did."""
+    sm = im.sm
+    pool = [im.make(k, spec) for k, spec in zip(POOL, hist['init'])]
+    on_step(-1, ['init'], pool, [(id(o), im.snap(o)) for o in pool], {'kind': 'init', 'changed': set()})
+    for idx, op in enumerate(hist['ops']):
+        before = [(id(o), im.snap(o)) for o in pool]
+        rec = {'kind': op[0], 'changed': set()}
+        k = op[0]
+        if k in ('rot', 'tup'):
+            if k == 'rot':
+                _, form, l, r, sel = op
+                lo = pool[l]
+            else:
+                _, vals, r, sel = op
+                form, l, lo = 0, None, tuple(vals)
+            ro = pool[r]
+            rec.update(form=form, l=l, r=r, ltag=im.tag_of(lo), rtag=im.tag_of(ro), lval=im.model_val(lo), rval=im.model_val(ro),
+                       lraw=im.raw(lo), alias=(lo is ro))
+            rec['want'] = reference_product(im, lo, ro)
+            rec['rad'] = radii_of(rec['want'][1]) if rec['want'][0] != 'vec' else [1.0, 1.0, 1.0, 1.0]
+            res, err = run_form(im, lo, ro, form)
+            rec.update(err=err, res=res, res_tag=im.tag_of(res) if err is None else None,
+                       res_raw=im.raw(res) if err is None else None, res_is_left=(res is lo) if err is None else False)
+            if err is None:
+                if form == 1 and l is not None:
+                    pool[l] = res
+                    rec['changed'].add(l)
+                elif res is not lo and res is not ro:
+                    d = place(im, pool, res, sel)
+                    if d is not None:
+                        rec['changed'].add(d)
+        elif k == 'ang-attr':
+            _, i, name, val = op
+            old = im.raw(pool[i])
+            setattr(pool[i], name, val)
+            old[['pitch', 'yaw', 'roll'].index(name)] = float(val) % 360 % 360
+            rec.update(exact=(i, old)); rec['changed'].add(i)
+        elif k == 'ang-item':
+            _, i, key, val = op
+            old = im.raw(pool[i])
+            pool[i][key] = val
+            ax = key if isinstance(key, int) else {'p': 0, 'y': 1, 'r': 2}[key[0]]
+            old[ax] = float(val) % 360.0 % 360.0
+            rec.update(exact=(i, old)); rec['changed'].add(i)
+        elif k == 'ang-imul':
+            _, i, f = op
+            old = im.raw(pool[i])
+            x = pool[i]
+            x *= f
+            pool[i] = x
+            rec.update(exact=(i, [t * f % 360.0 % 360.0 for t in old]), same_object=(x is pool[i])); rec['changed'].add(i)
+        elif k == 'vec-attr':
+            _, i, name, val = op
+            old = im.raw(pool[i])
+            setattr(pool[i], name, val)
+            old['xyz'.index(name)] = float(val)
+            rec.update(exact=(i, old)); rec['changed'].add(i)
+        elif k == 'mat-items':
+            _, i, ang = op
+            src = mat_entries(sm.Matrix.from_angle(*ang))
+            for a in range(3):
+                for b in range(3):
+                    pool[i][a, b] = src[3 * a + b]
+            rec.update(exact=(i, src)); rec['changed'].add(i)
+        elif k == 'transform':
+            _, i, r = op
+            lo, ro = pool[i], pool[r]
+            rec.update(form=1, l=i, r=r, ltag=im.tag_of(lo), rtag=im.tag_of(ro), lval=im.model_val(lo), rval=im.model_val(ro),
+                       lraw=im.raw(lo), alias=False)
+            rec['want'] = reference_product(im, lo, ro)
+            rec['rad'] = radii_of(rec['want'][1]) if rec['want'][0] != 'vec' else [1.0, 1.0, 1.0, 1.0]
+            with lo.transform() as m:
+                m @= ro
+            rec.update(err=None, res=lo, res_tag=im.tag_of(lo), res_raw=im.raw(lo), res_is_left=True)
+            rec['changed'].add(i)
+        elif k in ('copy', 'freeze', 'thaw'):
+            _, i, sel = op
+            o = pool[i]
+            meth = getattr(o, k, None)
+            if meth is not None:
+                n = meth()
+                rec.update(derived=(im.raw(o), im.raw(n), im.tag_of(n), n is o))
+                d = place(im, pool, n, sel) if n is not o else None
+                if d is not None:
+                    rec['changed'].add(d)
+        on_step(idx, op, pool, before, rec)
+    return pool
+
+
+def history_property(ctx_witness, im, hist):
+    """The property on a history: every step's result is what the operands' current VALUES dictate, bystanders do not
+    change, and on the values current after every step Vec @ Angle = Vec @ Matrix.from_angle(Angle) etc."""
+    sm = im.sm
+
+    def on_step(idx, op, pool, before, rec):
+        where = f'step {idx} {op}'
+        for i, o in enumerate(pool):
+            if i not in rec['changed'] and (id(o) != before[i][0] or im.snap(o) != before[i][1]):
+                ctx_witness('history-bystander-changed', f'{where}: {TAGS[POOL[i]]} in slot {i} changed although it was not the target', idx)
+        if 'exact' in rec:
+            i, want = rec['exact']
+            if im.snap(pool[i]) != [bits(x) for x in want]:
+                ctx_witness('history-setter', f'{where}: slot {i} is {im.raw(pool[i])}, expected {want}', idx)
+        if 'derived' in rec:
+            a, b, _, _ = rec['derived']
+            if [bits(x) for x in a] != [bits(x) for x in b]:
+                ctx_witness('history-copy', f'{where}: the derived object has value {b}, source {a}', idx)
+        if 'want' in rec and rec.get('err') is None:
+            kind, want = rec['want']
+            got = rec['res_raw']
+            steps = max(idx, 0) + 1
+            if kind == 'ang':
+                got = mat_entries(sm.Matrix.from_angle(*got))
+                tol = 8 * loss_bound(rec['rad'][0]) + steps * tol_poly(1)
+            else:
+                tol = 4 * tol_poly(sum(abs(Fr(t)) for t in rec['lraw']) if kind == 'vec' else 1)
+            if not is_finite_list(got) or maxdiff(got, want) > tol:
+                ctx_witness('history-value', f'{where}: {TAGS[rec["ltag"]]} {FORMS[rec["form"]]} {TAGS[rec["rtag"]]} gives {rec["res_raw"]}; the operands\' '
+                                             f'current values give {want} ({kind}); differs by {float(maxdiff(got, want)):.3e}', idx)
+            mutable = rec['ltag'] in (VEC, ANG, MAT)
+            if rec['kind'] == 'rot' and rec['form'] == 1 and mutable and not rec['res_is_left']:
+                ctx_witness('imatmul-not-inplace', f'{where}: @= on a mutable left operand bound a new object', idx)
+            if rec['kind'] == 'rot' and not (rec['form'] == 1 and mutable) and rec['res_is_left']:
+                ctx_witness('result-is-operand', f'{where}: the result is the left operand itself', idx)
+        elif 'want' in rec and rec['rtag'] >= ANG and rec['form'] != 2:
+            ctx_witness('dispatch-rejected', f'{where} rejected: {rec["err"]}', idx)
+        # identities on the values current NOW, through the live objects themselves
+        probes = [sm.Vec(*PROBE_V), pool[0]]
+        for ai in (3, 4, 5):
+            a = pool[ai]
+            Ma = sm.Matrix.from_angle(a.pitch, a.yaw, a.roll)
+            for v in probes:
+                n1 = sum(abs(Fr(t)) for t in im.raw(v))
+                if maxdiff(im.raw(v @ a), im.raw(v @ Ma)) > 4 * tol_poly(n1):
+                    ctx_witness('vec-angle', f'after {where}: Vec{tuple(im.raw(v))} @ {a!r} (slot {ai}) = {im.raw(v @ a)} but '
+                                             f'Vec @ Matrix.from_angle(same angle) = {im.raw(v @ Ma)}', idx)
+            t = tuple(PROBE_V)
+            if maxdiff(im.raw(t @ a), im.raw(sm.Vec(*t) @ Ma)) > 4 * tol_poly(sum(abs(Fr(x)) for x in t)):
+                ctx_witness('vec-angle', f'after {where}: tuple @ {a!r} (slot {ai}) != Vec @ Matrix.from_angle(same angle)', idx)
+            for mi in (6, 8):
+                Mm = pool[mi]
+                if maxdiff(mat_entries(Mm @ a), mat_entries(Mm @ Ma)) > 4 * tol_poly(1) * (1 + max(abs(x) for x in mat_entries(Mm))):
+                    ctx_witness('mat-angle', f'after {where}: {TAGS[POOL[mi]]} @ {a!r} (slot {ai}) != Matrix @ Matrix.from_angle(same angle)', idx)
+            # (v @ A) @ a = v @ (A @ from_angle(a))
+            A = pool[7]
+            v = probes[0]
+            if maxdiff(im.raw((v @ A) @ a), im.raw(v @ (A @ Ma))) > 16 * tol_poly(sum(abs(Fr(x)) for x in PROBE_V)) * (1 + max(abs(x) for x in mat_entries(A))):
+                ctx_witness('assoc', f'after {where}: (v @ M) @ {a!r} (slot {ai}) != v @ (M @ Matrix.from_angle(same angle))', idx)
+    run_history(im, hist, on_step)
+
+
+def history_fails(im, hist):
+    found = []
+    try:
+        history_property(lambda key, what, idx: found.append((key, what, idx)), im, hist)
+    except Exception as ex:
+        found.append(('exception', f'{type(ex).__name__}: {ex}', -1))
+    return found
+
+
+def prop_history(ctx, im, hist, shrink=True):
+    found = history_fails(im, hist)
+    if not found:
+        return
+    key, what, idx = found[0]
+    small = hist
+    if shrink:
+        import common
+        ops = hist['ops'][:idx + 1] if idx >= 0 else hist['ops']
+        if not any(f[0] == key for f in history_fails(im, {'init': hist['init'], 'ops': ops})):
+            ops = hist['ops']
+        ops = common.ddmin(ops, lambda sub: any(f[0] == key for f in history_fails(im, {'init': hist['init'], 'ops': list(sub)})), budget=200)
+        if any(f[0] == key for f in history_fails(im, {'init': hist['init'], 'ops': []})):
+            ops = []
+        small = {'init': hist['init'], 'ops': list(ops)}
+        again = [f for f in history_fails(im, small) if f[0] == key]
+        if again:
+            what = again[0][1]
+    ctx.witness(key, f'history over one pool of live objects ({len(small["ops"])} operation(s) after shrinking: {small["ops"]}): {what}',
+                {'kind': 'history', 'init': small['init'], 'ops': small['ops']})
+
+
+def gen_histories(ctx, rng):
+    for _ in range(ctx.budget(400, 4000)):
+        yield gen_history(rng, rng.randrange(4, ctx.budget(16, 30)))
+
 # ----------------------------------------------------------------------------- correspondence
 
 def correspond(ctx, drivers):
@@ -760,6 +1029,53 @@ def correspond(ctx, drivers):
                 ctx.disagree(c, got, [float(x) for x in mv], 'dispatch: value')
         add([req], chk)
 
+    # --- operation histories over one pool of live objects: every step vs the model applied to the CURRENT values
+    for hist in gen_histories(ctx, case_rng(ctx, 'history')):
+        def on_step(idx, op, pool, before, rec, hist=hist):
+            if 'want' not in rec:
+                ctx.count('history-op:' + rec['kind'])
+                return
+            req = {'op': 'dispatch', 'l': rec['ltag'], 'r': rec['rtag'], 'form': rec['form'], 'lv': rec['lval'], 'rv': rec['rval'],
+                   'rad': [dy(x) for x in rec['rad']]}
+
+            def chk(rep, rec=rec, idx=idx, op=op, hist=hist):
+                c = {'history': {'init': hist['init'], 'ops': hist['ops'][:idx + 1]}, 'step': idx}
+                m = rep[0]
+                ctx.case({'step': idx, 'op': op, 'l': rec['lval'], 'r': rec['rval']}, nontrivial=True, sample_every=1013)
+                ctx.count('history-op:' + rec['kind'] + ':' + FORMS[rec['form']]); ctx.traces_vs_impl += 1
+                if m['res'] is None or rec['err'] is not None:
+                    if (m['res'] is None) != (rec['err'] is not None):
+                        ctx.disagree(c, rec['err'] or TAGS[rec['res_tag']], m, 'history: accepted/rejected')
+                    return
+                if rec['kind'] != 'transform':
+                    if m['res'] != rec['res_tag']:
+                        ctx.disagree(c, TAGS[rec['res_tag']], TAGS[m['res']], 'history: result type')
+                        return
+                    if m['inplace'] != rec['res_is_left']:
+                        ctx.disagree(c, rec['res_is_left'], m['inplace'], 'history: result is the left operand')
+                if m['val'] is None:
+                    ctx.disagree(c, rec['res_raw'], None, 'history: model could not evaluate its formula')
+                    return
+                mv = [fr(x) for x in m['val']]
+                if m['res'] in (ANG, FANG):
+                    got = trig(*rec['res_raw'])
+                    rad = rec['rad']
+                    general = rad[0] > 0.001
+                    rr = [rad[1], rad[1], rad[0] if general else rad[3], rad[0] if general else rad[3], rad[2] if general else 1.0, rad[2] if general else 1.0]
+                    bad = [i for i in range(6) if abs(mv[i] - Fr(got[i])) > (4 + idx) * tol_ang(rr[i])]
+                else:
+                    got = rec['res_raw']
+                    scale = sum(abs(Fr(t)) for t in rec['lraw']) if rec['ltag'] <= TUP else 1
+                    bad = list(range(len(got))) if not is_finite_list(got) else \
+                        [i for i in range(len(got)) if abs(mv[i] - Fr(got[i])) > 4 * tol_poly(scale)]
+                if bad:
+                    ctx.disagree(c, got, [float(x) for x in mv], 'history: value of a step differs from the model on the current values')
+            add([req], chk)
+        try:
+            run_history(im, hist, on_step)
+        except Exception as ex:
+            ctx.disagree({'history': hist}, f'{type(ex).__name__}: {ex}', None, 'history raised')
+
     # --- general matrices for inverse()
     rng = case_rng(ctx, 'inverse')
     for e in gen_inverse_cases(ctx, rng):
@@ -822,6 +1138,12 @@ def search(ctx):
         ctx.count('search:composed:' + case[0])
     for case in gen_dispatch_cases(ctx, case_rng(ctx, 'dispatch')):
         prop_dispatch_case(ctx, im, case)
+    n_shrunk = 0
+    for hist in gen_histories(ctx, case_rng(ctx, 'history')):
+        before = len(ctx.witnesses)
+        prop_history(ctx, im, hist, shrink=n_shrunk < 3)
+        n_shrunk += len(ctx.witnesses) > before
+        ctx.count('search:history')
     for e in gen_inverse_cases(ctx, case_rng(ctx, 'inverse')):
         prop_inverse_case(ctx, im, e)
     # witnesses of findings recorded as fixed must pass now
@@ -835,6 +1157,9 @@ def search(ctx):
     for d in ctx.disagreements[:20]:
         c = d['case']
         if 'probe' in c:
+            continue
+        if 'history' in c:
+            prop_history(ctx, im, c['history'], shrink=True)
             continue
         if 'l' in c:
             l, r, f = TAGS.index(c['l']), TAGS.index(c['r']), FORMS.index(c['form'])
@@ -876,6 +1201,8 @@ def _replay_input(ctx, im, inp):
         prop_inverse_case(ctx, im, tuple(inp['m']))
     elif k == 'composed':
         prop_composed_case(ctx, im, ('replay', [tuple(t) for t in inp['chain']], tuple(inp['v'])))
+    elif k == 'history':
+        prop_history(ctx, im, {'init': inp['init'], 'ops': inp['ops']}, shrink=False)
     else:
         return False
     return True
